@@ -150,15 +150,23 @@ def kc_case(arg):
         dist = mpi.ops.assemble_striped_ragged_array(res.distances, lengths)
         return [int(c) for c in ctr], [int(a) for a in asg], [float(d) for d in dist]
 
-    def body_kc(rank):
+    allX = np.concatenate(trajs)
+
+    def body_kc(rank, ti=False):
         X = np.concatenate(trajs[rank::R])
         X0 = X.copy()
-        res = kcenters.kcenters(X, m, n_clusters=k, mpi_mode=True)
+        res = kcenters.kcenters(X, m, n_clusters=k, mpi_mode=True, use_triangle_inequality=ti)
         g = reassemble(res)
         same = bool(np.array_equal(X, X0))
         mx = float(mpi.ops.striped_array_max(res.distances))
         mean = float(mpi.ops.striped_array_mean(res.distances))
-        return g, same, mx, mean, (res.center_indices, res.assignments.copy(), res.distances.copy())
+        # the center coordinates every rank holds are the frames at the (global) center indices
+        ctr_ok = len(res.centers) == len(g[0]) and all(
+            np.array_equal(np.asarray(cxy, dtype=float).reshape(-1), allX[gi].reshape(-1)) for cxy, gi in zip(res.centers, g[0]))
+        return g, same, mx, mean, (res.center_indices, res.assignments.copy(), res.distances.copy()), bool(ctr_ok)
+
+    def body_kc_ti(rank):
+        return body_kc(rank, ti=True)
 
     def body_hybrid(rank):
         X = np.concatenate(trajs[rank::R])
@@ -180,6 +188,17 @@ def kc_case(arg):
         agree = all(r[0] == g0 for r in res) and all(r[2] == res[0][2] and r[3] == res[0][3] for r in res)
         if not all(r[1] for r in res):
             out["bad"].append(("kcenters-mpi/inputs-modified", ""))
+        if not all(r[5] for r in res):
+            out["bad"].append(("kcenters-mpi/centers-are-not-the-frames-at-center-indices",
+                               {"ranks": [i for i, r in enumerate(res) if not r[5]]}))
+        # the triangle-inequality shortcut changes nothing (same program otherwise, same arrival schedule)
+        res_ti = run(body_kc_ti, "kcenters-mpi-ti")
+        if res_ti is not None:
+            if [r[0] for r in res_ti] != [r[0] for r in res]:
+                out["bad"].append(("kcenters-mpi/shortcut-differs-from-plain", {"plain": res[0][0], "shortcut": res_ti[0][0]}))
+            if not all(r[5] for r in res_ti):
+                out["bad"].append(("kcenters-mpi/centers-are-not-the-frames-at-center-indices",
+                                   {"ranks": [i for i, r in enumerate(res_ti) if not r[5]], "shortcut": True}))
         out["events"].append(_state(g0[0], g0[1], g0[2], metric, agree))
         ser = case["serial"]
         exp = ([c - 1 for c in ser["ctr"]], [a - 1 for a in ser["asg"]], list(ser["dist"]))
